@@ -12,7 +12,7 @@ AUDIT_INPUT_FILES = True   # after every case the driver verifies that the synth
 PROPERTY = "C16"
 LEVEL = "exploration"
 CLAIM = {
-    "text": "Exploration by runtime monitoring: (a) spies on RFIMask.apply_mask/apply_method/apply_funcn assert after every call that chan_mask is a superset of its previous value and equals previous OR the component just computed, and the mask returned by clean_rfi equals user OR stats OR custom; (b) user and statistics masks are recomputed by independent float64 definitions (closed frequency ranges; double-MAD and IQRM z-scores on var/skew/kurtosis) with elements within 1e-4 of the threshold treated as ambiguous, planted outliers must be flagged and all-equal vectors must flag nothing; (c) the cleaned file is compared sample by sample with the input for gulps {1,7,N/3,N,inf} at depths 1,2,4,8,32: masked channels constant at the mask value, every other sample bit-identical; (d) RFIMask.from_file(to_file()) must reproduce arrays, threshold and header. Added: float bands with negative levels and negative/out-of-byte-range mask values (default value within 1e-4 of the median for float data), the custom function must be shown user|stats and its mask must equal f(user|stats); input files are re-hashed after every case. The thorough tier also runs the repository's own test-suite with the RFIMask monotonicity hooks on. Rounds 7-8 added: mostly-tied statistic vectors with outliers of unequal strength on both sides, tiny-scale vectors (scatter 4e-8), bands of 4-11 channels, and duplicates of a mask (copy / attrs.evolve) taken mid-history. Round 9 added: double-precision statistic vectors at level 1e9 (IQRM).",
+    "text": "Exploration by runtime monitoring: (a) spies on RFIMask.apply_mask/apply_method/apply_funcn assert after every call that chan_mask is a superset of its previous value and equals previous OR the component just computed, and the mask returned by clean_rfi equals user OR stats OR custom; (b) user and statistics masks are recomputed by independent float64 definitions (closed frequency ranges; double-MAD and IQRM z-scores on var/skew/kurtosis) with elements within 1e-4 of the threshold treated as ambiguous, planted outliers must be flagged and all-equal vectors must flag nothing; (c) the cleaned file is compared sample by sample with the input for gulps {1,7,N/3,N,inf} at depths 1,2,4,8,32: masked channels constant at the mask value, every other sample bit-identical; (d) RFIMask.from_file(to_file()) must reproduce arrays, threshold and header. Added: float bands with negative levels and negative/out-of-byte-range mask values (default value within 1e-4 of the median for float data), the custom function must be shown user|stats and its mask must equal f(user|stats); input files are re-hashed after every case. The thorough tier also runs the repository's own test-suite with the RFIMask monotonicity hooks on. Rounds 7-8 added: mostly-tied statistic vectors with outliers of unequal strength on both sides, tiny-scale vectors (scatter 4e-8), bands of 4-11 channels, and duplicates of a mask (copy / attrs.evolve) taken mid-history. Round 9 added: double-precision statistic vectors at level 1e9 (IQRM). Round 10 added: the threshold retuned between statistics passes of one mask (statistics mask judged against the reference at the threshold of the moment) and range limits given as the decimal centres of a band that single precision cannot hold.",
     "design_ref": "DESIGN.md section 3 (C16)",
     "note": "Trusted: numpy float64 median/percentile as the reference for double-MAD and IQRM, vlib/sigfile.py. Frequency-range limits are either >= a quarter channel away from every centre or exactly equal to a channel's float32 centre (closed range: included). The default mask value must lie within one quantisation level of the median of the unmasked channel means.",
     "technique": "runtime monitoring: invariant hooks on mask updates + independent reference masks + whole-file differential of the cleaned output",
